@@ -55,9 +55,9 @@ func (c *compiler) compileChange(achange *parse.Change) *Change {
 		for _, ri := range replacer.Imports.Imports {
 			if mi.Path == ri.Path && mi.NameS == ri.NameS {
 				if replacer.Imports.Kept == nil {
-					replacer.Imports.Kept = make(map[string]bool)
+					replacer.Imports.Kept = make(map[importKey]bool)
 				}
-				replacer.Imports.Kept[mi.Path] = true
+				replacer.Imports.Kept[mi.key()] = true
 			}
 		}
 	}
